@@ -29,7 +29,7 @@ OPTION_SETS = [[], [], ["score=automatic"], ["score=automatic"], ["bmax=5"], ["i
 
 def hand_triples(rng):
     out = []
-    for st in ("N", "A", "S", "NN", "AC", "N N", "NNNNN  NNNNN"):
+    for st in ("N", "A", "S", "NN", "AC", "N N", "NNNNN  NNNNN", " NNNNNNN NNNN  NNN", "  SWNNH DNNWS", " N"):      # also: templates that start with blanks (trailing blanks are stripped by the loader, by design)
         n = len(st)
         out.append((st, [-1] * n, [0 if c == " " else i + 1 for i, c in enumerate(st)]))
     # a hairpin: stem paired, loop free
